@@ -21,6 +21,24 @@ CHECKS = {
     "C05": (True, "property-based testing (proptest): differential against an independent table/row-hash builder, all 4 hash builds",
             "Generated-input exploration over column counts, heights, friendly boundaries, query sets and 8 corruption kinds; verdict equality with an independent reference that recomputes semantic truth of each (possibly corrupted) claim.",
             TRUST, "DESIGN.md §5 C05"),
+    "C06": (True, "property-based testing (proptest): completeness against an independent coefficient-space FRI prover; algebraic fold identity; all 4 hash builds",
+            "Generated-input exploration over FRI configurations (step lists, last-layer bound, blow-up, friendly boundary), PRF polynomials below the bound, transcript seeds and query-set shapes: the honest instance built by an independent prover must pass Config::validate, fri_commit (evaluation points and transcript state equal to the sponge model), compute_next_layer (equal to the folded polynomial) and fri_verify; fri_formula is compared with 2^k*sum b^j P_j(y) on arbitrary cosets.",
+            TRUST, "DESIGN.md §5 C06"),
+    "C07": (True, "property-based testing (proptest): single-corruption mutation of honest instances from an independent FRI prover, plus honestly folded high-degree functions; all 4 hash builds",
+            "Generated-input exploration: every generated honest FRI instance gets 1..9 independent single corruptions out of 13 kinds, each of which must be not accepted; high-degree functions folded honestly with >=24 queries must be rejected. Found the discarded inner-layer decommitment (fixed, F1); reverse patches are kept as seeded mutants.",
+            TRUST, "DESIGN.md §5 C07"),
+    "C09": (True, "property-based testing (proptest) with oracle-guided boundary search: differential against an independent bit-level PoW oracle; both PoW hashes; exhaustive over the 256 difficulties for config validation",
+            "Generated-input exploration over (digest, difficulty 0..=128, nonce) with an independent two-stage hash oracle, including nonces found on both sides of the acceptance threshold for every n <= 18 (22 thorough), plus transcript state after commit; Config::validate enumerated completely.",
+            TRUST, "DESIGN.md §5 C09"),
+    "C10": (True, "property-based testing (proptest): model-based (squeeze, low 128 bits, mod, sort, dedup) and direct invariants; independent point mapping via bigint modpow",
+            "Generated-input exploration over transcript states, sample counts 0..=300 and domains 2^1..2^64 weighted so that collisions are common; found the missing de-duplication (fixed, F4).",
+            TRUST, "DESIGN.md §5 C10"),
+    "C12": (True, "exhaustive enumeration of the finite input space (all 18721 (t,c) pairs) against an independent bigint computation",
+            "Complete enumeration: the property's quantifier ranges over a finite space which is enumerated completely on every run (exhaustive: true).",
+            TRUST, "DESIGN.md §5 C12"),
+    "C15": (True, "property-based testing (proptest): differential against naive evaluation of the defining recurrence / product",
+            "Generated-input exploration over (n_bits, spacing, z, alpha) including every layout's (16,4), and over public memories with headers, padding and column sizes up to 2^40, compared with naive evaluation.",
+            TRUST, "DESIGN.md §5 C15"),
 }
 
 PENDING_REASON = "check under construction in this session; not claimed until its machinery is committed"
